@@ -7,8 +7,8 @@ CHECK = {
     ],
     "units": [
         unit("storagex-txn", "storagex", ["storagex/model_test.go", "storagex/c08_txn_test.go"], "^TestVerif_C08_Txn$",
-             quick={"checks": 3000, "shards": 1, "cap": 600},
-             thorough={"checks": 12000, "shards": 16, "cap": 2400}, no_ulimit=True,
+             quick={"checks": 8000, "shards": 1, "cap": 600},
+             thorough={"checks": 20000, "shards": 16, "cap": 2400}, no_ulimit=True,
              floors={"txn-inmem": {"nontrivial": 0.06}, "txn-inmem+cache": {"nontrivial": 0.06}, "txn-inmem+barrier": {"nontrivial": 0.06},
                      "txn-inmem+cache+encoding+barrier+barrierview": {"nontrivial": 0.06}}),
     ],
